@@ -12,6 +12,8 @@ CONSTANTS
   Reads = {}
   DevShift = FALSE
   EmitAll = FALSE
+  P1 = 0
+  P2 = 0
 CONSTRAINT Bounded
 VIEW View
 INVARIANT InvIndexExact
